@@ -211,6 +211,8 @@ def e2e_part(spec, part):
             for a in range(47547, 47571):
                 sim.regs[a] = rnd.randrange(65536)
         out = {}
+        if fam != "ES" and rnd.random() < 0.5:
+            sim.zero_count_ok = True        # firmware that answers a read of zero registers with an empty payload instead of refusing it
 
         async def flow(loop):
             inv = models.family_cls(g, fam)("inv0", port, 0, 1, 0)
